@@ -14,6 +14,7 @@
 (*   xfull, outfull   real compact_fc_to_full_fc of x and of out            *)
 (*   fullsym  real full-layout symmetriser applied to xfull                 *)
 (*   back     real inverse converter applied to out                         *)
+(*   shown    what show_drift_force_constants printed (value, component)     *)
 (*   exact    every projection had a negligible rounding residual           *)
 (*   bitexact the values are exactly the dyadic rationals logged            *)
 (* The step machine runs on the case's input.  At the end                   *)
@@ -63,6 +64,8 @@ ImplVerdict ==
              \cup V("ImplTransposeInvolution", AgainSame(o, x0))
            ELSE {})
      \cup V("ImplDriftUnchanged", ReqDriftUnchanged(S, c, x0, out))
+     \cup V("ImplDriftDisplayed", r = "drift" => o.shown = DriftDef(S, x0))
+     \cup V("ConformsDriftDisplayed", r = "drift" => o.shown = DriftShown(S, x0))
      \cup (IF r = "expand" THEN
                    V("ImplExpandIsDefinition", ReqExpand(S, c, x0, out))
              \cup V("ImplCompactFullCompact", SameArr(o.back, x0))
@@ -110,6 +113,8 @@ ImplSGKeeps == "ImplSGKeeps" \notin verdict
 ImplTransposeIsTranspose == "ImplTransposeIsTranspose" \notin verdict
 ImplTransposeInvolution == "ImplTransposeInvolution" \notin verdict
 ImplDriftUnchanged == "ImplDriftUnchanged" \notin verdict
+ImplDriftDisplayed == "ImplDriftDisplayed" \notin verdict
+ConformsDriftDisplayed == "ConformsDriftDisplayed" \notin verdict
 ImplCompactFullCompact == "ImplCompactFullCompact" \notin verdict
 ImplToCompactIsDefinition == "ImplToCompactIsDefinition" \notin verdict
 ImplFullCompactFull == "ImplFullCompactFull" \notin verdict
